@@ -707,6 +707,19 @@ Proof.
     intros [= <-]. left. apply (wf_view_bound _ _ Eg).
 Qed.
 
+(* after the rename the new contents are what a reader sees *)
+Lemma shape_read_published s ops sy fl fdl : Shape s ops sy fl fdl -> SafeP ops sy fl ->
+  has_ren ops = true -> walk (dirs s0) d = WDir -> too_long b = false ->
+  read_path s p = Some data.
+Proof.
+  intros H [Hops [_ Hc]] Hr Hw Hl. unfold read_path, p. rewrite walk_snoc.
+  rewrite (shape_walk_d _ _ _ _ _ H), Hw, Hl.
+  rewrite (shape_view _ _ _ _ _ H), (ops_eget _ Hops), Hr.
+  destruct (Hc Hr) as [pm [im ->]]. rewrite (sh_files _ _ _ _ _ H).
+  rewrite nth_error_app2 by (unfold i; lia). replace (i - length (files s0)) with 0 by (unfold i; lia).
+  reflexivity.
+Qed.
+
 End WriteFile.
 
 (* ---------------------------------------------------------------------------------------- *)
@@ -817,6 +830,48 @@ Proof.
   rewrite Es in Hg. destruct Hg as [ops [sy [fl [fdl [H _]]]]].
   split; [apply (sh_other _ _ _ _ _ _ _ H)|]. split; [exists fl; apply (sh_files _ _ _ _ _ _ _ H)|].
   apply (sh_cap _ _ _ _ _ _ _ H).
+Qed.
+
+Lemma write_file_ok_walk s0 p data perm sfx f0 :
+  result_of (write_file p data perm sfx f0 s0) = None -> walk (dirs s0) (parent p) = WDir.
+Proof.
+  unfold write_file, result_of. unfold bind at 1. unfold call at 1. rewrite step_opendir.
+  destruct (walk (dirs s0) (parent p)); auto; cbn; discriminate.
+Qed.
+
+(* when WriteFile returned nil, a reader finds the new contents; the parent directory is the
+   only directory whose state changed, it has no pending operations, and the inode table grew
+   by exactly the new file *)
+Theorem write_ok_state : forall s0 p data perm sfx f0, wf s0 ->
+  result_of (write_file p data perm sfx f0 s0) = None ->
+  let s' := state_of (write_file p data perm sfx f0 s0) in
+  read_path s' p = Some data /\
+  (forall q, q <> parent p -> dirs s' q = dirs s0 q) /\
+  d_pend (dirs s' (parent p)) = [] /\
+  (exists f, files s' = files s0 ++ [f] /\ f_vol f = None /\ f_dur f = data) /\
+  fds s' = fds s0 /\ cap s' = cap s0.
+Proof.
+  intros s0 p data perm sfx f0 Hwf Hr s'.
+  pose proof (write_file_ok_walk _ _ _ _ _ _ Hr) as Hw.
+  destruct (path_eq_dec p []) as [->|Hp].
+  - exfalso. revert Hr. unfold write_file, result_of, bind, call, ret, fsync_and_close.
+    cbn [parent removelast]. rewrite step_opendir, walk_nil. cbv beta iota.
+    unfold bind, ret, call. cbv beta iota.
+    destruct (step (SClose f0) (bind_fd s0 f0 (HDir []))) as [s2 r2]. cbn. discriminate.
+  - pose proof (write_file_chain s0 (parent p) (base p) data perm sfx f0 Hwf) as [_ [_ Hf]].
+    rewrite <- write_file_snoc, <- (path_snoc p Hp) in Hf. rewrite Hr in Hf. fold s' in Hf.
+    destruct Hf as [[im Hs] Hl].
+    assert (Safe : SafeP s0 (base p) data sfx
+                     [OLink (tmp_name (base p) sfx) (EFile (length (files s0)));
+                      ORename (tmp_name (base p) sfx) (base p) (length (files s0))] true
+                     [mkFile data None perm im]).
+    { repeat split; auto. repeat constructor. intros _. exists perm, im. reflexivity. }
+    split.
+    { rewrite (path_snoc p Hp) at 1. eapply shape_read_published; eauto. }
+    split; [apply (sh_other _ _ _ _ _ _ _ Hs)|].
+    split; [rewrite (sh_dir _ _ _ _ _ _ _ Hs); reflexivity|].
+    split; [exists (mkFile data None perm im); split; [apply (sh_files _ _ _ _ _ _ _ Hs)|split; reflexivity]|].
+    split; [apply (sh_fds _ _ _ _ _ _ _ Hs)|apply (sh_cap _ _ _ _ _ _ _ Hs)].
 Qed.
 
 (* non-vacuity: a successful overwrite in a directory with an older file *)
